@@ -20,7 +20,8 @@ func init() {
 			"(R4) the set of completion sites (sends on ResultChan(), calls of returnResult/returnResults) is frozen and each is of a checked class (after-unregister, swap-drain, never-registered); " +
 			"(R5) QueueRPC/QueueBatch refuse with ErrClientClosed (a ServerError) on the closed done channel; " +
 			"(R6) every reader error before a call was claimed is a ServerError, the reader loop fails the connection on it, and every early exit of the dial literal goes through fail; " +
-			"(R7) in send, registration follows serialisation and precedes the write.",
+			"(R7) in send, registration follows serialisation and precedes the write." +
+			" Added after the seeded-change rounds: (R3) the error trySend hands back is delivered to the call unchanged (no wrapping: consumers classify by dynamic type); (R5) the queue channel between callers and the writer goroutine is unbuffered wherever a client is built; (R6) every error send returns after it attempted a write is a ServerError, and the in-flight counter and read deadline are only touched in inFlightUp/inFlightDown with inFlightM held (shared with C18.R1).",
 		Residue:   "exact-once under all interleavings of fail with a concurrent sender (relies on sync.Once and the map swap, pinned structurally by R1/R2/R4); partial writes inside the kernel",
 		Technique: "must-pass-through path search on the SSA CFG, who-may-call tables, once/defer idioms",
 		Run:       runC03,
